@@ -18,6 +18,7 @@ import (
 	"github.com/smallnest/rpcx/log"
 	"github.com/smallnest/rpcx/protocol"
 	"github.com/smallnest/rpcx/share"
+	"github.com/smallnest/rpcx/verifhook"
 )
 
 const (
@@ -513,6 +514,8 @@ func urlencode(data map[string]string) string {
 }
 
 func (client *Client) send(ctx context.Context, call *Call) {
+	verifhook.Hit("client.send.enter", call)
+
 	// Register this call.
 	client.mutex.Lock()
 	if client.shutdown || client.closing {
